@@ -15,7 +15,7 @@ func zzStubKdf02(length int, x ...[]byte) ([]byte, bool) {
 	for _, p := range x {
 		all = append(all, p...)
 	}
-	if length == 0 {
+	if length <= 0 { // as the real kdf: no output blocks
 		return nil, false
 	}
 	c := vUFBytes("kdf."+strconv.Itoa(length)+"."+strconv.Itoa(len(all)), length, all)
@@ -24,8 +24,13 @@ func zzStubKdf02(length int, x ...[]byte) ([]byte, bool) {
 			return c, true
 		}
 	}
+	// the all-zero keystream (Encrypt retries with a fresh nonce) is explored once per run
+	zzKdfZero++
+	vAssume(zzKdfZero <= 1)
 	return c, false
 }
+
+var zzKdfZero int
 
 func zzQ2() int64 {
 	if vTier() == 1 {
@@ -39,28 +44,31 @@ func zzQ2() int64 {
 //
 //verif:property C02
 //verif:expect-reach end
-//verif:bound abstract prime-order group of order 257 (quick) / 65537 (thorough) in place of the curve; d in [1,q-2]; thorough tier only (about 15 min and may be inconclusive: symbolic-length coordinate strings make ~3600 solver queries); plaintext length 1 or 2, content symbolic; both orders; SM3 and the KDF arbitrary functions of their inputs; nonce bytes symbolic
+//verif:bound abstract prime-order group of order 257 (quick) / 65537 (thorough) in place of the curve; d in [1,q-2]; plaintext length 1..2 (quick) / each of 1..33 (thorough), content symbolic; both orders; SM3 and the KDF arbitrary functions of their inputs (an all-zero keystream at most once per run, so Encrypt's retry loop runs at most twice); nonce bytes symbolic
 //verif:outside the real curve arithmetic (C03); ASN.1 form (reflection-driven encoding/asn1)
 //verif:stub-symbolic github.com/tjfoc/gmsm/sm3.Sm3Sum zzStubSm3Sum02
 //verif:stub-symbolic github.com/tjfoc/gmsm/sm2.kdf zzStubKdf02
 //verif:unwind 200
-//verif:thorough-only
 func zzH_c02_roundtrip() {
-	maxL := 1
+	maxL := 2
 	if vTier() == 1 {
-		maxL = 2
+		maxL = 33
 	}
 	L := 1 + vChoice("L", maxL)
 	mode := vChoice("mode", 2)
 	m := vBytes("m", L, L)
 	if vNative() {
+		// real curve: enough fresh nonces that shared points with leading zero coordinate
+		// bytes (1 in 128 each) occur
 		priv, _ := GenerateKey(rand.Reader)
-		ct, err := Encrypt(&priv.PublicKey, m, rand.Reader, mode)
-		vAssert("encrypt-ok", err == nil)
-		pt, err := Decrypt(priv, ct, mode)
-		vAssert("decrypt-ok", err == nil)
-		vAssert("roundtrip", bytes.Equal(pt, m))
-		vAssert("layout", len(ct) == 97+L && ct[0] == 4)
+		for i := 0; i < 1500; i++ {
+			ct, err := Encrypt(&priv.PublicKey, m, rand.Reader, mode)
+			vAssert("encrypt-ok", err == nil)
+			pt, err := Decrypt(priv, ct, mode)
+			vAssert("decrypt-ok", err == nil)
+			vAssert("roundtrip", bytes.Equal(pt, m))
+			vAssert("layout", len(ct) == 97+L && ct[0] == 4)
+		}
 		return
 	}
 	g := zzNewGroup(zzQ2())
@@ -118,8 +126,8 @@ func zzH_c02_offcurve_rejected() {
 	} else {
 		g := zzNewGroup(257)
 		priv, _ = zzKey(g, "d")
-		x1 = new(big.Int).SetBytes(vBytes("x1", 2, 2))
-		y1 = new(big.Int).SetBytes(vBytes("y1", 2, 2))
+		x1 = new(big.Int).SetBytes(vBytes("x1", 4, 4))
+		y1 = new(big.Int).SetBytes(vBytes("y1", 4, 4))
 	}
 	vAssume(!priv.Curve.IsOnCurve(x1, y1))
 	// what Decrypt will compute from this C1
@@ -161,4 +169,31 @@ func zzPad32(b []byte) []byte {
 	out := make([]byte, 32)
 	copy(out[32-len(b):], b)
 	return out
+}
+
+// H02-short: ciphertexts too short to contain C1 and C3 are rejected with an error (no panic),
+// in both component orders.
+//
+//verif:property C02
+//verif:expect-reach end
+//verif:bound ciphertext length each of {0,1,2,33,64,65,66,95,96,97,98} with symbolic content, both orders, abstract group key
+//verif:stub-symbolic github.com/tjfoc/gmsm/sm3.Sm3Sum zzStubSm3Sum02
+//verif:stub-symbolic github.com/tjfoc/gmsm/sm2.kdf zzStubKdf02
+//verif:unwind 200
+func zzH_c02_short_rejected() {
+	lens := []int{0, 1, 2, 33, 64, 65, 66, 95, 96, 97, 98}
+	L := lens[vChoice("L", len(lens))]
+	mode := vChoice("mode", 2)
+	ct := vBytes("ct", L, L)
+	var priv *PrivateKey
+	if vNative() {
+		priv, _ = GenerateKey(rand.Reader)
+	} else {
+		priv, _ = zzKey(zzNewGroup(257), "d")
+	}
+	_, err := Decrypt(priv, ct, mode)
+	if L < 97 {
+		vAssert("too-short-rejected", err != nil)
+	}
+	vReach("end")
 }
